@@ -656,8 +656,55 @@ func genAvg(r *rand.Rand) Input {
 	return in
 }
 
+// ---- stream "aligned": uploads of exactly 100 s / 200 s on the 100 s grid into a segment whose root is already above
+// that bucket (the bucket node matches the upload and gets no children), a reload of the segment, then single-slot
+// uploads and sub-range queries INSIDE the bucket ----
+func genAligned(r *rand.Rand) Input {
+	in := Input{Stream: "aligned"}
+	b := boundary(r, 1000)
+	name := lib.Pick(r, []string{"app0{}", "app0{t=a}"})
+	st := func(i int) []treeu.Stack {
+		res := []treeu.Stack{{Key: []byte("a;b"), V: uint64(100 * lib.Range(r, 1, 5))}}
+		if lib.Chance(r, 0.5) {
+			res = append(res, treeu.Stack{Key: []byte(fmt.Sprintf("a;c%d", i)), V: uint64(100 * lib.Range(r, 1, 3))})
+		}
+		return res
+	}
+	// something elsewhere first, so that the root of the segment tree is above the 100 s level
+	far := lib.Pick(r, []int64{300, 500, 1000, 2000})
+	in.Steps = append(in.Steps, Step{Kind: "put", Name: name, From: b + far, Until: b + far + 10, Stacks: st(0)})
+	off := 100 * int64(r.Intn(3))
+	span := lib.Pick(r, []int64{100, 100, 200})
+	in.Steps = append(in.Steps, Step{Kind: "put", Name: name, From: b + off, Until: b + off + span, Stacks: st(1)})
+	maint := func() {
+		switch r.Intn(3) {
+		case 0:
+			in.Steps = append(in.Steps, Step{Kind: "restart", Quiet: lib.Chance(r, 0.5)})
+		case 1:
+			in.Steps = append(in.Steps, Step{Kind: "evict", Cache: "segments", Num: 1, Den: 1, Quiet: lib.Chance(r, 0.5)})
+		default:
+			in.Steps = append(in.Steps, Step{Kind: "evict", Cache: lib.Pick(r, cacheNames), Num: 1, Den: 1})
+			in.Steps = append(in.Steps, Step{Kind: "evict", Cache: "segments", Num: 1, Den: 1, Quiet: true})
+		}
+	}
+	maint()
+	for i := 0; i < lib.Range(r, 0, 2); i++ {
+		f := b + off + 10*int64(r.Intn(int(span/10)))
+		in.Steps = append(in.Steps, Step{Kind: "put", Name: name, From: f, Until: f + 10, Stacks: st(2 + i)})
+		if lib.Chance(r, 0.4) {
+			maint()
+		}
+	}
+	for _, q := range [][2]int64{{off + 20, off + 50}, {off, off + 100}, {off + 50, off + 150}, {-100, 300}, {off, off + span}, {0, far + 100}} {
+		in.Queries = append(in.Queries, Query{Name: name, From: b + q[0], Until: b + q[1]})
+	}
+	return in
+}
+
 func gen(r *rand.Rand, idx int, tier string) Input {
-	switch idx % 7 {
+	switch idx % 8 {
+	case 7:
+		return genAligned(r)
 	case 3:
 		return genDelOne(r)
 	case 4:
@@ -666,7 +713,7 @@ func gen(r *rand.Rand, idx int, tier string) Input {
 		return genAvg(r)
 	}
 	in := Input{Stream: "plain"}
-	if idx%6 == 5 {
+	if idx%8 == 5 {
 		in.Stream = "writeback"
 	}
 	// series: 1-3 apps, 1-3 series each
